@@ -137,6 +137,7 @@ fn do_sched(
         rel,
         abs,
         via_action: matches!(via, Via::Action(_)),
+        salt: m.salt,
         seq_before: 0,
     });
     let addr = &addrs[target as usize];
@@ -253,6 +254,7 @@ pub fn run_case(case: &Arc<Case>, ctx: &Arc<ExecCtx>) -> RunInfo {
             verif::TraceEvent::Pushed(c) => TraceEv::Pushed(c),
             verif::TraceEvent::Popped(c) => TraceEv::Popped(c),
             verif::TraceEvent::TimeWritten(s, n) => TraceEv::TimeWritten(s, n),
+            verif::TraceEvent::TimeoutFired => TraceEv::TimeoutFired,
         };
         tctx.log(Ev::Trace(te));
     }));
